@@ -1,4 +1,5 @@
 import TxdbusModel.Proofs.Wire.CostWork
+import TxdbusModel.Proofs.Wire.CostVsCode
 /-!
 Property C05 - malformed or hostile message bytes are rejected in bounded time.
 
@@ -14,6 +15,11 @@ Fuel bounds the longest chain of nested / consecutive calls; `unmarshal_fuel_ade
 longest signature in play (the caller's, or a variant's: at most 255 by its one-byte length).
 What the tables have to satisfy is `Tables.Good` (every fixed-size reader reads and reports at least one byte;
 struct and dict entry are 8-aligned), re-proved by `decide` from the generated tables: `tables_good`.
+
+Extension 2026-09-30 (composition with C01 / C02): `cost_agrees_with_code` - the cost model and the VALUE model
+`Code.unmarshal` of `Wire/Code.lean` (the decoder of the C01 round trip and of C02), each on its own generated tables,
+are the same decoder as far as the outcome goes; `code_fuel_adequate`, `code_result_bounded` carry the termination and
+size bounds over to the value model.
 -/
 open Txdbus Txdbus.Cost
 
@@ -109,7 +115,94 @@ theorem prefix_array_loop_never_terminates (fds : Option (List Nat)) (data : Lis
     (unmarshal genTables false fds n ['a', '(', ')'] data 0 le).st = .outOfFuel :=
   prefix_array_unit fds data le h4 hw n
 
+/-! ### Composition with the value model of C01 / C02 (`Wire/Code.lean`) -/
+
+open Txdbus.CostVsCode (FdsRel FdsPlain toPy RelL)
+
+/-- **The cost model and the value model are the same decoder.**  For EVERY signature string `sig` (balanced or not,
+known type codes or not, empty, any length - both models are defined on all of them; an unknown code is `KeyError` in
+both, an unbalanced bracket `TypeError`, a trailing `a` `RuntimeError`), every `data`, `off`, byte order, and
+descriptor lists related by `FdsRel` (both `None` or both lists; the value model's descriptors hashable scalars);
+with fuel `≥ fuelFor sig data` for the cost model and `≥ codeFuel sig data off = |sig| + (|data| - off) + 1` for the value
+model (the two fuels count different things: longest call chain / nesting depth):
+* the cost model returns iff `Code.unmarshal` returns,
+* with the same number of consumed bytes and the same number of top-level values (whose shapes are related by `RelL`);
+  the decoded values contain at most `size` objects (`nodesList`, Wire/CostValue.lean), `size` being the cost model's count,
+* the cost model raises exception class `e` iff `Code.unmarshal` raises the same class,
+* and `Code.unmarshal` raises nothing else - in particular neither `RecursionError` (its out-of-fuel outcome) nor the
+  `other` error that stands for tables it does not understand.
+Signatures that come from the DATA (variants) are covered: the variant case of the simulation runs both models on the
+signature both read from the same bytes.  The generated tables of the two properties (`Gen/C05Wire.lean`,
+`Gen/Wire.lean`) are related by `decide`-checked, order-independent checks (`CostVsCode.alignOk`, `CostVsCode.kindOk`):
+if the two translators ever read the source differently, this theorem stops checking. -/
+theorem cost_agrees_with_code (fc : Option (List Nat)) (fv : Code.Fds) (hfds : FdsRel fc fv) (sig : List Char)
+    (data : List UInt8) (off : Nat) (le : Bool) (fuelC fuelV : Nat)
+    (hC : fuelFor sig data ≤ fuelC) (hV : codeFuel sig data off ≤ fuelV) :
+    let r := unmarshal genTables true fc fuelC sig data off le
+    let c := Code.unmarshal fuelV sig data off le fv
+    (r.st = .ok ↔ ∃ n vs, c = .ok (n, vs)) ∧
+    (∀ n vs, c = .ok (n, vs) → r.off = off + n ∧ vs.length = r.vals.length ∧ RelL vs r.vals ∧ nodesList vs ≤ r.size) ∧
+    (∀ e, r.st = .err e ↔ c = .error (toPy e)) ∧
+    (∀ e', c = .error e' → ∃ e, e' = toPy e) :=
+  CostVsCode.agree_gen fc fv hfds sig data off le fuelC fuelV hC hV
+
+/-- The same statement without a fuel bound on either side: ANY run of the cost model that did not run out of fuel,
+against the value model with more fuel than the nesting depth that run reports. -/
+theorem cost_simulates_code (fc : Option (List Nat)) (fv : Code.Fds) (hfds : FdsRel fc fv) (sig : List Char)
+    (data : List UInt8) (off : Nat) (le : Bool) (fuelC fuelV : Nat)
+    (hne : (unmarshal genTables true fc fuelC sig data off le).st ≠ .outOfFuel)
+    (hd : (unmarshal genTables true fc fuelC sig data off le).depth < fuelV) :
+    ((unmarshal genTables true fc fuelC sig data off le).st = .ok →
+      ∃ vs, Code.unmarshal fuelV sig data off le fv =
+          .ok ((unmarshal genTables true fc fuelC sig data off le).off - off, vs) ∧
+        off ≤ (unmarshal genTables true fc fuelC sig data off le).off ∧
+        RelL vs (unmarshal genTables true fc fuelC sig data off le).vals ∧
+        nodesList vs ≤ (unmarshal genTables true fc fuelC sig data off le).size) ∧
+    (∀ e, (unmarshal genTables true fc fuelC sig data off le).st = .err e →
+      Code.unmarshal fuelV sig data off le fv = .error (toPy e)) :=
+  CostVsCode.sim_unmarshal fc fv hfds sig data off le fuelC fuelV hne hd
+
+/-- **C05's fuel bound is sufficient for the value model**: with `|sig| + (|data| - off) + 1` units of fuel (or more) -
+a bound computable from the lengths of signature and data alone - `Code.unmarshal` never runs out of fuel
+(`RecursionError`), for every signature and data; the descriptors, if any, are scalars (`FdsPlain`: no containers;
+ints in txdbus).  So the decoder of C01 / C02 / C03 can be run at this fuel without a hypothesis on the nesting depth. -/
+theorem code_fuel_adequate (fv : Code.Fds) (hfv : FdsPlain fv) (sig : List Char) (data : List UInt8) (off : Nat)
+    (le : Bool) (fuelV : Nat) (hV : codeFuel sig data off ≤ fuelV) :
+    Code.unmarshal fuelV sig data off le fv ≠ .error .recursion ∧
+    Code.unmarshal fuelV sig data off le fv ≠ .error .other :=
+  CostVsCode.code_fuel_gen fv hfv sig data off le fuelV hV
+
+/-- **`result_size_bounded` for the value model**: whatever `Code.unmarshal` returns at that fuel, the Python objects in
+it (`nodesList`: every list, dict, key, value, scalar) number at most `stepBound sig data off =
+|sig| + (max |sig| 255 + 2) * (|data| - off) + 1` - the decoded value is linear in the data length. -/
+theorem code_result_bounded (fv : Code.Fds) (hfv : FdsPlain fv) (sig : List Char) (data : List UInt8) (off : Nat)
+    (le : Bool) (fuelV : Nat) (hV : codeFuel sig data off ≤ fuelV) (n : Nat) (vs : List PyVal)
+    (h : Code.unmarshal fuelV sig data off le fv = .ok (n, vs)) :
+    nodesList vs ≤ stepBound sig data off :=
+  CostVsCode.code_result_gen fv hfv sig data off le fuelV hV n vs h
+
 /-! The hypotheses are satisfiable and the statements are about non-trivial runs. -/
+
+/-- descriptor lists as txdbus passes them (ints) are related. -/
+example : FdsRel (some [4, 5]) (some [.int .plain 4, .int .plain 5]) :=
+  ⟨rfl, fun l h v hv => by cases h; simp at hv; rcases hv with rfl | rfl <;> rfl⟩
+example : FdsPlain (some [.int .plain 4, .int .plain 5]) := CostVsCode.fdsPlain_ints [4, 5]
+example : FdsRel none none := ⟨rfl, fun l h => by cases h⟩
+
+/-- both models on `(ay)` / `02 00 00 00 07 09` at the fuels of the theorem: value, 6 bytes, one top-level value. -/
+example : (unmarshal genTables true (some []) (fuelFor ['(', 'a', 'y', ')'] [2, 0, 0, 0, 7, 9]) ['(', 'a', 'y', ')']
+      [2, 0, 0, 0, 7, 9] 0 true).st = .ok ∧
+    (match Code.unmarshal (codeFuel ['(', 'a', 'y', ')'] [2, 0, 0, 0, 7, 9] 0) ['(', 'a', 'y', ')'] [2, 0, 0, 0, 7, 9] 0 true
+        (some []) with
+     | .ok (n, vs) => n == 6 && vs.length == 1 && nodesList vs == 4
+     | .error _ => false) = true := by decide +kernel
+
+/-- ... and on a hostile input (variant carrying the unbalanced signature `(`): `TypeError` in both. -/
+example : (unmarshal genTables true (some []) (fuelFor ['v'] [1, 40, 0, 0]) ['v'] [1, 40, 0, 0] 0 true).st = .err .type ∧
+    (match Code.unmarshal (codeFuel ['v'] [1, 40, 0, 0] 0) ['v'] [1, 40, 0, 0] 0 true (some []) with
+     | .error e => e == .type
+     | .ok _ => false) = true := by decide +kernel
+
 
 /-- `fuelFor` itself is an admissible fuel; the F1 exemplar is now rejected with an exception after 2 invocations. -/
 example : (unmarshal genTables true (some []) (fuelFor ['a', '(', ')'] [8, 0, 0, 0, 0, 0, 0, 0, 0, 0, 0, 0])
@@ -136,3 +229,7 @@ end Txdbus.C05
 #print axioms Txdbus.C05.unmarshal_bounded
 #print axioms Txdbus.C05.parseMessage_work_linear
 #print axioms Txdbus.C05.prefix_array_loop_never_terminates
+#print axioms Txdbus.C05.cost_agrees_with_code
+#print axioms Txdbus.C05.cost_simulates_code
+#print axioms Txdbus.C05.code_fuel_adequate
+#print axioms Txdbus.C05.code_result_bounded
